@@ -1,0 +1,18 @@
+//go:build verif
+
+// Contracts for the deductive verifier in /verif (comment-only file; compiled out
+// unless the build tag `verif` is set, and even then contains no executable code).
+package shard
+
+// Seen from the cluster layer a shard handle is opaque: opening, closing and backing up a
+// shard affect only the shard object and its files, none of which the cluster-level
+// contracts model (assumed).
+//@ func NewShard
+//@   trusted
+//@   pure
+//@ func (*Shard).Close
+//@   trusted
+//@   pure
+//@ func (*Shard).Backup
+//@   trusted
+//@   pure
